@@ -11,6 +11,9 @@ KillNow == <<<<KILL, INF>>, <<NOOP, 0>>, <<NOOP, 0>>>>
 StartOpts == {[dl |-> d, stop |-> KillNow, nb |-> nb, rin |-> 0, rout |-> 0, rerr |-> re, input |-> inp,
                term |-> 0, self |-> TRUE, prog |-> "/bin/c"] :
                d \in DlOpts, nb \in NbOpts, re \in {R_PIPE, R_STDOUT, R_DEFAULT}, inp \in {IF i = 99 THEN -1 ELSE i : i \in Inputs}}   \* 99 encodes "no start-up input" (a cfg cannot hold -1)
+             \* fork mode: the forked child plays the child's part itself, the streams must behave exactly the same
+             \cup {[dl |-> d, stop |-> KillNow, nb |-> FALSE, rin |-> 0, rout |-> 0, rerr |-> R_PIPE, input |-> -1,
+                     term |-> 0, self |-> TRUE, prog |-> "/bin/c", fork |-> TRUE] : d \in DlOpts}
 Sinks == {<<<<0, 0>>, <<0, 0>>>>} \cup {<<<<k, -5>>, <<0, 0>>>> : k \in SinkFails} \cup {<<<<0, 0>>, <<k, 7>>>> : k \in SinkFails}
          \* the library's string sink: empty or non-empty before, allocation failing at growth step k (0 = never)
          \cup {<<<<k, ENOMEM, "str", l0>>, <<0, 0>>>> : k \in SinkFails \cup {0}, l0 \in {0, 3}}
